@@ -8,6 +8,7 @@ import (
 	"encoding/json"
 	"errors"
 	"fmt"
+	"strings"
 
 	sentinel "github.com/alibaba/sentinel-golang/api"
 	"github.com/alibaba/sentinel-golang/core/base"
@@ -38,8 +39,8 @@ func (P) Describe() harness.Description {
 	return harness.Description{
 		MustHit: []string{"request_raced_with_rule_switch", "both_rule_lists_observed", "getter_ran_concurrently", "stable_resource_checked"},
 		Level:   "exploration",
-		Rule: "case = 3-6 simulated callers with 4-14 operations each: traffic (Entry with arguments / TraceError / Exit on a flow-churned, an isolation-churned, a hotspot-churned, a stable-blocking and a free resource), rule churn (LoadRulesOfResource alternating two distinguishable rule lists L0=[pass,block0] / L1=[block1,pass] for flow, isolation and hotspot; whole-set LoadRules / ClearRules for circuit breaker, system and outlier on other resources), readers (all GetRules / GetRulesOfResource, resource node list and statistics getters). " +
-			"The worker is built with -race; the seeded scheduler (random walk / PCT) picks the runner at every atomic access and lock operation. Oracles: (1) any race-detector report ends the run as a violation (replay = the regenerated case and its seeded schedule); (2) no panic escapes, no deadlock among the callers, every caller finishes; (3) every request on a churned resource is blocked by block0 or by block1 - never admitted and never blocked by anything else (a mixed reading of the two lists); (4) requests on the stable and the free resource are decided as if there were no churn. " +
+		Rule: "case = 3-6 simulated callers with 4-14 operations each: traffic (Entry with arguments / TraceError / Exit on a flow-churned, an isolation-churned, a hotspot-churned, a stable-blocking and a free resource), rule churn (LoadRulesOfResource switching among four distinguishable rule lists (2-3 rules each, exactly one always-blocking rule block<n> at a different position, the others never blocking; switches keep, move, drop and add controllers) for flow, isolation and hotspot; whole-set LoadRules / ClearRules for circuit breaker, system and outlier on other resources), readers (all GetRules / GetRulesOfResource, resource node list and statistics getters). " +
+			"The worker is built with -race; the seeded scheduler (random walk / PCT) picks the runner at every atomic access and lock operation. Oracles: (1) any race-detector report ends the run as a violation (replay = the regenerated case and its seeded schedule); (2) no panic escapes, no deadlock among the callers, every caller finishes; (3) every request on a churned resource is blocked by a block<n> rule - never admitted and never blocked by anything else (a mixed reading of two lists); (4) requests on the stable and the free resource are decided as if there were no churn. " +
 			"non-trivial = a request overlapped a rule switch of its resource and both lists were observed; distinct = hash(config, ops, (task, access kind) sequence)",
 		Assumptions: []string{"listener and generator registration (documented as not thread-safe) are outside the domain", "the race detector's shadow memory is bounded: runs are kept short", "a race report kills the worker (halt_on_error); the case in flight is regenerated from the progress file, it is not minimised"},
 		Real:        []string{"api.Entry/TraceError/Exit", "all rule managers (load / clear / getters)", "core/stat node storage and getters", "slot chain, context and option pools"},
@@ -93,7 +94,7 @@ func (P) Gen(rng *sim.Rng, tier string) *harness.Case {
 					callers[i] = append(callers[i], op)
 				}
 			case 1: // churn: R selects the module, N the list
-				callers[i] = append(callers[i], harness.Op{K: "churn", R: rng.Intn(6), N: uint64(rng.Intn(2)), F: rng.Chance(0.15)})
+				callers[i] = append(callers[i], harness.Op{K: "churn", R: rng.Intn(6), N: uint64(rng.Intn(4)), F: rng.Chance(0.15)})
 			default: // reader
 				callers[i] = append(callers[i], harness.Op{K: "read", R: rng.Intn(9)})
 			}
@@ -106,35 +107,53 @@ func (P) Gen(rng *sim.Rng, tier string) *harness.Case {
 	return c
 }
 
-// the two distinguishable lists per churned module
+// the distinguishable lists per churned module. Every list contains exactly one rule that blocks every request of
+// the workload (ID "block<n>") and one or two that never block; the lists differ in order and length so that a
+// switch keeps, moves, drops and adds controllers in every combination (a kept first rule followed by dropped ones
+// is the case where a loader that edits the live list in place exposes a list that is neither the old nor the new).
 func flowList(n uint64) []*flow.Rule {
-	pass := func(id string) *flow.Rule {
-		return &flow.Rule{ID: id, Resource: rFlow, TokenCalculateStrategy: flow.Direct, ControlBehavior: flow.Reject, Threshold: 1e9}
+	mk := func(id string, t float64) *flow.Rule {
+		return &flow.Rule{ID: id, Resource: rFlow, TokenCalculateStrategy: flow.Direct, ControlBehavior: flow.Reject, Threshold: t}
 	}
-	block := func(id string) *flow.Rule {
-		return &flow.Rule{ID: id, Resource: rFlow, TokenCalculateStrategy: flow.Direct, ControlBehavior: flow.Reject, Threshold: 0}
+	switch n % 4 {
+	case 0:
+		return []*flow.Rule{mk("pass0", 1e9), mk("block0", 0)}
+	case 1:
+		return []*flow.Rule{mk("block1", 0), mk("pass1", 1e9)}
+	case 2:
+		return []*flow.Rule{mk("block2", 0), mk("pass2", 5e8), mk("pass2b", 1e9)}
 	}
-	if n == 0 {
-		return []*flow.Rule{pass("pass0"), block("block0")}
-	}
-	return []*flow.Rule{block("block1"), pass("pass1")}
+	return []*flow.Rule{mk("pass3", 5e8), mk("pass3b", 1e9), mk("block3", 0)}
 }
 
 func isoList(n uint64) []*isolation.Rule {
-	if n == 0 {
-		return []*isolation.Rule{{ID: "pass0", Resource: rIso, MetricType: isolation.Concurrency, Threshold: 1000000}, {ID: "block0", Resource: rIso, MetricType: isolation.Concurrency, Threshold: 2}}
+	mk := func(id string, t uint32) *isolation.Rule {
+		return &isolation.Rule{ID: id, Resource: rIso, MetricType: isolation.Concurrency, Threshold: t}
 	}
-	return []*isolation.Rule{{ID: "block1", Resource: rIso, MetricType: isolation.Concurrency, Threshold: 1}, {ID: "pass1", Resource: rIso, MetricType: isolation.Concurrency, Threshold: 1000000}}
+	switch n % 4 {
+	case 0:
+		return []*isolation.Rule{mk("pass0", 1000000), mk("block0", 2)}
+	case 1:
+		return []*isolation.Rule{mk("block1", 1), mk("pass1", 1000000)}
+	case 2:
+		return []*isolation.Rule{mk("block2", 1), mk("pass2", 500000), mk("pass2b", 1000000)}
+	}
+	return []*isolation.Rule{mk("pass3", 500000), mk("pass3b", 1000000), mk("block3", 2)}
 }
 
 func hotList(n uint64) []*hotspot.Rule {
 	mk := func(id string, t int64) *hotspot.Rule {
 		return &hotspot.Rule{ID: id, Resource: rHot, MetricType: hotspot.QPS, ControlBehavior: hotspot.Reject, ParamIndex: 0, Threshold: t, DurationInSec: 1, SpecificItems: map[interface{}]int64{}}
 	}
-	if n == 0 {
+	switch n % 4 {
+	case 0:
 		return []*hotspot.Rule{mk("pass0", 1000000), mk("block0", 0)}
+	case 1:
+		return []*hotspot.Rule{mk("block1", 0), mk("pass1", 1000000)}
+	case 2:
+		return []*hotspot.Rule{mk("block2", 0), mk("pass2", 500000), mk("pass2b", 1000000)}
 	}
-	return []*hotspot.Rule{mk("block1", 0), mk("pass1", 1000000)}
+	return []*hotspot.Rule{mk("pass3", 500000), mk("pass3b", 1000000), mk("block3", 0)}
 }
 
 type result struct {
@@ -322,8 +341,8 @@ func (P) Exec(c *harness.Case) *harness.Outcome {
 			switch name {
 			case rFlow, rIso, rHot:
 				want := map[string]base.BlockType{rFlow: base.BlockTypeFlow, rIso: base.BlockTypeIsolation, rHot: base.BlockTypeHotSpotParamFlow}[name]
-				if r.admitted || r.btype != want || (r.ruleID != "block0" && r.ruleID != "block1") {
-					o.Fail("C15.mixed-rule-list", int(r.ret), "request on %s: admitted=%v block=%s rule=%q; under either rule list it must be blocked by block0 or block1 (the request saw a mixture of the two lists, or a half-built one)", name, r.admitted, r.btype, r.ruleID)
+				if r.admitted || r.btype != want || !strings.HasPrefix(r.ruleID, "block") {
+					o.Fail("C15.mixed-rule-list", int(r.ret), "request on %s: admitted=%v block=%s rule=%q; under every rule list it must be blocked by that list's block<n> rule (the request saw a mixture of two lists, or a half-built one)", name, r.admitted, r.btype, r.ruleID)
 					return o
 				}
 				seen[name+r.ruleID] = true
@@ -352,7 +371,13 @@ func (P) Exec(c *harness.Case) *harness.Outcome {
 		}
 	}
 	for _, n := range []string{rFlow, rIso, rHot} {
-		if seen[n+"block0"] && seen[n+"block1"] {
+		d := 0
+		for i := 0; i < 4; i++ {
+			if seen[fmt.Sprintf("%sblock%d", n, i)] {
+				d++
+			}
+		}
+		if d >= 2 {
 			o.Probe("both_rule_lists_observed")
 		}
 	}
